@@ -83,6 +83,12 @@ class C01:
             for ds in gen.schedules(rng, s, n_random=2):
                 g.add("cut", gen.req_op(tree, ov, cfg, ds))
             groups.append(g)
+        for j, (label, s) in enumerate(extremes.dictionary(rng, tier)[0]):
+            cfg = (1000, 1000, 10_000_000)
+            g = Group("D%d" % j, "req-delivery-dictionary", {"stream": s.hex(), "cfg": list(cfg), "what": label})
+            g.add("one-piece", gen.req_op(tree, ov, cfg, [s]))
+            g.add("cut", gen.req_op(tree, ov, cfg, gen.cut(s, gen.crlf_cuts(s))))
+            groups.append(g)
         for j, it in enumerate(extremes.requests(rng, tier)):
             s, cfg = it["stream"], it["cfg"]
             g = Group("X%d" % j, "req-delivery-extreme", {"stream": s.hex(), "cfg": list(cfg), "what": it["label"]})
@@ -152,6 +158,11 @@ class C02:
             g.add("one-piece", gen.resp_op(tree, ov, hl, [s]))
             for ds in gen.schedules(rng, s, n_random=2):
                 g.add("cut", gen.resp_op(tree, ov, hl, ds))
+            groups.append(g)
+        for j, (label, s) in enumerate(extremes.dictionary(rng, tier)[1]):
+            g = Group("D%d" % j, "resp-delivery-dictionary", {"stream": s.hex(), "hl": None, "framing": label})
+            g.add("one-piece", gen.resp_op(tree, ov, None, [s]))
+            g.add("cut", gen.resp_op(tree, ov, None, gen.cut(s, gen.crlf_cuts(s))))
             groups.append(g)
         for j, it in enumerate(extremes.responses(rng, tier)):
             s, hl = it["stream"], it["hl"]
@@ -308,6 +319,12 @@ class C03:
                 for ds in gen.schedules(rng, s, n_random=1)[:5]:
                     g.add("cut", gen.req_op(tree, ov, cfg, ds))
             groups.append(g)
+        for j, (label, s) in enumerate(extremes.dictionary(rng, tier)[0]):
+            cfg = (1000, 1000, 10_000_000)
+            g = Group("D%d" % j, "req-accept-dictionary", {"stream": s.hex(), "cfg": list(cfg), "what": label})
+            g.add("whole", gen.req_op(tree, ov, cfg, [s]))
+            g.add("cut", gen.req_op(tree, ov, cfg, gen.cut(s, gen.crlf_cuts(s))))
+            groups.append(g)
         for j, it in enumerate(extremes.requests(rng, tier)):
             s, cfg = it["stream"], it["cfg"]
             g = Group("X%d" % j, "req-accept-extreme", {"stream": s.hex(), "cfg": list(cfg), "what": it["label"]})
@@ -358,6 +375,11 @@ class C04:
             if rng.chance(1, 4):
                 for ds in gen.schedules(rng, s, n_random=1)[:5]:
                     g.add("cut", gen.resp_op(tree, ov, hl, ds))
+            groups.append(g)
+        for j, (label, s) in enumerate(extremes.dictionary(rng, tier)[1]):
+            g = Group("D%d" % j, "resp-accept-dictionary", {"stream": s.hex(), "hl": None, "what": label})
+            g.add("whole", gen.resp_op(tree, ov, None, [s]))
+            g.add("cut", gen.resp_op(tree, ov, None, gen.cut(s, gen.crlf_cuts(s))))
             groups.append(g)
         for j, it in enumerate(extremes.responses(rng, tier)):
             s, hl = it["stream"], it["hl"]
@@ -1095,6 +1117,11 @@ class C06:
                     if i < len(base):
                         add("multibyte-replace", mk(base[:i] + mb + base[i + 1:]))
         # long lines: a multi-byte character straddling every byte offset up to 300 (error texts, excerpts, limits)
+        dreq, dresp = extremes.dictionary(rng, tier)
+        for label, s in dreq:
+            add("req-dictionary", gen.req_op(tree, ov, (1000, 1000, 10_000_000), [s]), {"what": label})
+        for label, s in dresp:
+            add("resp-dictionary", gen.resp_op(tree, ov, None, [s]), {"what": label})
         for it in extremes.requests(rng, tier):
             add("req-extreme", gen.req_op(tree, ov, it["cfg"], [it["stream"]]), {"what": it["label"]})
         for it in extremes.responses(rng, tier):
